@@ -250,6 +250,37 @@ impl<'tcx> Cx<'tcx> {
                     v.push(("cdef", esc(&self.path(uv.def))));
                     if uv.promoted.is_some() {
                         v.push(("promoted", uv.promoted.unwrap().as_usize().to_string()));
+                        // a promoted `&Enum::UnitVariant` (the right-hand side of `x == Enum::Variant`): say which variant it is
+                        if let Some(ld) = uv.def.as_local() {
+                            let proms = self.tcx.promoted_mir(ld);
+                            if let Some(pb) = proms.get(uv.promoted.unwrap()) {
+                                let mut found: Vec<(String, String, usize)> = Vec::new();
+                                let mut others = 0usize;
+                                for bbd in pb.basic_blocks.iter() {
+                                    for st in &bbd.statements {
+                                        if let StatementKind::Assign(bx) = &st.kind {
+                                            match &bx.1 {
+                                                Rvalue::Aggregate(ak, ops) if ops.is_empty() => {
+                                                    if let AggregateKind::Adt(d, vi, _, _, _) = &**ak {
+                                                        let def = self.tcx.adt_def(*d);
+                                                        found.push((self.path(*d), def.variant(*vi).name.as_str().to_string(), vi.as_usize()));
+                                                    } else {
+                                                        others += 1;
+                                                    }
+                                                }
+                                                Rvalue::Ref(..) => {}
+                                                _ => others += 1,
+                                            }
+                                        }
+                                    }
+                                }
+                                if found.len() == 1 && others == 0 {
+                                    v.push(("padt", esc(&found[0].0)));
+                                    v.push(("pvariant", esc(&found[0].1)));
+                                    v.push(("pvi", found[0].2.to_string()));
+                                }
+                            }
+                        }
                     }
                 }
                 if ty.is_integral() || ty.is_bool() || ty.is_char() {
